@@ -40,16 +40,7 @@ func (v *Vue) evalVShow(ctx VueContext, n *html.Node) error {
 func (v *Vue) setStyleProperty(n *html.Node, property, value string) {
 	styleVal := helpers.GetAttr(n, "style")
 
-	// Parse existing styles
-	styleMap := parseStyleString(styleVal)
-	styleMap[property] = value
-
-	// Rebuild style string
-	var styles []string
-	for k, v := range styleMap {
-		styles = append(styles, k+":"+v+";")
-	}
-	helpers.AppendAttr(n, "style", strings.Join(styles, ""))
+	helpers.AppendAttr(n, "style", joinStyleDecls(setStyleDecl(parseStyleDecls(styleVal), property, value)))
 }
 
 // parseStyleString parses a CSS style string into a map.
